@@ -1563,3 +1563,158 @@ Proof.
     apply (compose_seq_path pose MPose.peq MPose.valid compose2 rg_compose2_valid rg_compose2_assoc l p2 p2);
       [eapply path_valid; eassumption | eapply V2; eassumption].
 Qed.
+
+Lemma remove_done_iter {P} comp fuel (R : MRigs.rigs P) T T1 :
+  MRigs.remove_inplace P comp fuel R T = Done T1 -> MRigs.remove_iter P comp fuel R T = Some T1.
+Proof.
+  unfold MRigs.remove_inplace. destruct (MRigs.remove_iter P comp fuel R T) as [T'|]; [|discriminate].
+  destruct (MRigs.first_empty P T'); [discriminate|]. congruence.
+Qed.
+
+Lemma recover_done_iter {P} comp inv fuel (R : MRigs.rigs P) masters T T2 :
+  MRigs.recover_inplace P comp inv fuel R masters T = Done T2 ->
+  MRigs.recover_iter P comp fuel (MRigs.reverse_dict P inv R) masters T = Some T2.
+Proof.
+  unfold MRigs.recover_inplace. destruct (MRigs.recover_iter P comp fuel _ masters T) as [T'|]; [|discriminate]. congruence.
+Qed.
+
+Theorem recover_masters_pose (R : rigsQ) (T : trajQ) masters world :
+  wf2 R -> wf2 T -> one_parent R -> rigs_validQ R -> consistent R world T ->
+  exists T2, recover_spec_inplace max_depth R masters T = Done T2 /\ consistent R world T2 /\
+    forall t r m g, member R r m g -> mounted R r = false -> is_master masters m = true -> posed T t m ->
+                    exists p2, lookup2 t r T2 = Some p2 /\ MPose.peq p2 (world t r).
+Proof.
+  intros WR WT OP RV (WV & G & A).
+  destruct (@recover_masters_gen pose MPose.peq MPose.valid compose2 inverse _ _ rg_inverse_cancel
+              R T 9 masters world WR WT OP RV WV G A) as (T2 & E2 & A2 & H).
+  exists T2. split; [|split; [exact (conj WV (conj G A2)) | exact H]].
+  unfold recover_spec_inplace, MRigs.recover_inplace. change max_depth with 10%nat. rewrite E2. reflexivity.
+Qed.
+
+Lemma depth1_unmounted (R : rigsQ) r : wf2 R -> depth_le R 1 -> is_rig R r = true -> mounted R r = false.
+Proof.
+  intros WR DL Rr. destruct (mounted R r) eqn:M; [|reflexivity]. exfalso.
+  apply mounted_iff in M; [|assumption]. destruct M as (r' & g & M).
+  assert (X := DL r [(r', g)] r' Rr (path_cons pose R r r' g [] r' M (path_nil pose R r'))). cbn in X. lia.
+Qed.
+
+(* nesting depth 1 (rigs of sensors only), any master list that names a posed member of the rig at that timestamp *)
+Theorem recover_remove_masters_depth1 (R : rigsQ) (T : trajQ) masters world :
+  wf2 R -> wf2 T -> one_parent R -> depth_le R 1 -> rigs_nonempty R -> rigs_validQ R ->
+  no_empty_timestamp T -> consistent R world T ->
+  exists T1 T2,
+    remove_spec_inplace max_depth R T = Done T1 /\ recover_spec_inplace max_depth R masters T1 = Done T2 /\
+    (forall t r p, is_rig R r = true -> lookup2 t r T = Some p ->
+                   (exists m g, member R r m g /\ is_master masters m = true /\ posed T1 t m) ->
+                   exists p2, lookup2 t r T2 = Some p2 /\ MPose.peq p2 p) /\
+    (forall t y, mounted R y = true -> lookup2 t y T2 = None) /\
+    consistent R world T1 /\ consistent R world T2.
+Proof.
+  intros WR WT OP DL RN RV NE C.
+  assert (Le : (1 <= max_depth)%nat) by (unfold max_depth; lia).
+  destruct (recover_remove_pose R T 1 world WR WT OP DL Le RN RV NE C) as (T1 & _ & E1 & _ & _ & _ & _ & C1 & _).
+  pose proof (remove_done_iter _ _ _ _ _ E1) as I1.
+  assert (W1 : wf2 T1) by exact (remove_iter_wf2 pose compose2 R max_depth T T1 WT I1).
+  destruct (recover_masters_pose R T1 masters world WR W1 OP RV C1) as (T2 & E2 & C2 & H).
+  pose proof (recover_done_iter _ _ _ _ _ _ _ E2) as I2.
+  exists T1, T2. split; [exact E1|]. split; [exact E2|]. split; [|split; [|split; assumption]].
+  - intros t r p Rr Lp (m & g & M & IM & Pm).
+    destruct (H t r m g M (depth1_unmounted R r WR DL Rr) IM Pm) as (p2 & L2 & Eq).
+    exists p2. split; [assumption|]. rewrite Eq. destruct C as (_ & _ & A). symmetry. apply A. assumption.
+  - exact (recover_no_member_left pose compose2 inverse R 1 masters WR DL max_depth 0%nat T1 T2 W1
+             (below_0 pose inverse R T1) Le I2).
+Qed.
+
+(* KeyError is unreachable on real dicts, whatever the rigs and trajectories *)
+Theorem remove_never_keyerror (R : rigsQ) (T : trajQ) fuel : wf2 R -> wf2 T -> remove_spec_inplace fuel R T <> KeyErr.
+Proof.
+  intros WR WT. unfold remove_spec_inplace, MRigs.remove_inplace.
+  destruct (remove_total pose compose2 R WR fuel T WT) as [T' E]. rewrite E.
+  destruct (MRigs.first_empty pose T'); discriminate.
+Qed.
+
+Theorem recover_never_keyerror (R : rigsQ) (T : trajQ) masters fuel : wf2 T -> recover_spec_inplace fuel R masters T <> KeyErr.
+Proof.
+  intros WT. unfold recover_spec_inplace, MRigs.recover_inplace.
+  destruct (recover_total pose compose2 (MRigs.reverse_dict pose inverse R) masters fuel T WT) as [T' E]. rewrite E. discriminate.
+Qed.
+
+(* ------------------------------------------------------------------ deciding the hypotheses on concrete data
+   (used by the Examples of Props/C06.v to show that the hypotheses of the theorems are satisfiable) *)
+Lemma nodupb_NoDup {A} `{EqDec A} (l : list A) : nodupb l = true -> NoDup l.
+Proof.
+  induction l as [|x l IH]; cbn; [constructor|]. rewrite andb_true_iff, negb_true_iff, memb_not_In.
+  intros [N R]. constructor; auto.
+Qed.
+
+Lemma wf2b_sound {K1 K2} `{EqDec K1} `{EqDec K2} (m : map2 K1 K2 pose) : wf2b m = true -> wf2 m.
+Proof.
+  unfold wf2b. rewrite andb_true_iff, forallb_forall. intros [N F]. split; [apply nodupb_NoDup; assumption|].
+  intros a i L. apply lookup_Some_In in L. apply nodupb_NoDup. exact (F (a, i) L).
+Qed.
+
+Lemma NoDup_map_inj {A B} (f : A -> B) l x y : NoDup (map f l) -> In x l -> In y l -> f x = f y -> x = y.
+Proof.
+  induction l as [|a l IH]; cbn; [tauto|]. intros N. inversion N as [|? ? NI N']; subst.
+  intros [->|Ix] [->|Iy] E; auto.
+  - exfalso. apply NI. rewrite E. apply in_map. assumption.
+  - exfalso. apply NI. rewrite <- E. apply in_map. assumption.
+Qed.
+
+(* each device appears at most once as a member, over all rigs *)
+Lemma one_parent_check (R : rigsQ) :
+  wf2 R -> nodupb (map (fun x : string * string * pose => snd (fst x)) (flat2 R)) = true -> one_parent R.
+Proof.
+  intros WR N r r' d g g' M M'. apply nodupb_NoDup in N.
+  apply (flat2_lookup2 _ _ _ _ WR) in M, M'.
+  assert (E : (r, d, g) = (r', d, g')) by (eapply NoDup_map_inj; [exact N | assumption | assumption | reflexivity]).
+  congruence.
+Qed.
+
+(* a rank that strictly decreases from a member to its rig bounds the nesting depth *)
+Lemma depth_le_rank (R : rigsQ) (rank : string -> nat) n :
+  wf2 R ->
+  forallb (fun x : string * string * pose => Nat.ltb (rank (fst (fst x))) (rank (snd (fst x)))) (flat2 R) = true ->
+  forallb (fun rm : string * al string pose => Nat.ltb (rank (fst rm)) n) R = true -> depth_le R n.
+Proof.
+  intros WR F1 F2. rewrite forallb_forall in F1, F2.
+  assert (A : forall d l top, path_up R d l top -> (rank top + List.length l <= rank d)%nat).
+  { induction 1 as [d|d r g l top M PU IH]; cbn; [lia|].
+    apply (flat2_lookup2 _ _ _ _ WR) in M. specialize (F1 _ M). cbn in F1. apply Nat.ltb_lt in F1. lia. }
+  intros d l top Rd PU. specialize (A d l top PU).
+  unfold is_rig, mem in Rd. destruct (lookup d R) as [m|] eqn:L; [|discriminate].
+  apply lookup_Some_In in L. specialize (F2 _ L). cbn in F2. apply Nat.ltb_lt in F2. lia.
+Qed.
+
+Lemma rigs_nonempty_check (R : rigsQ) :
+  forallb (fun rm : string * al string pose => negb (MRigs.is_nil (snd rm))) R = true -> rigs_nonempty R.
+Proof.
+  rewrite forallb_forall. intros F r m L. apply lookup_Some_In in L. specialize (F _ L). cbn in F.
+  destruct m; [discriminate | discriminate].
+Qed.
+
+Lemma no_empty_check (T : trajQ) :
+  forallb (fun tm : Z * al string pose => negb (MRigs.is_nil (snd tm))) T = true -> no_empty_timestamp T.
+Proof.
+  rewrite forallb_forall. intros F t m L. apply lookup_Some_In in L. specialize (F _ L). cbn in F.
+  destruct m; [discriminate | discriminate].
+Qed.
+
+(* trajectories that pose only unmounted devices (top-level rigs, free sensors) have a single source *)
+Lemma single_source_unmounted (R : rigsQ) (T : trajQ) :
+  wf2 R -> wf2 T ->
+  forallb (fun x : Z * string * pose => negb (mounted R (snd (fst x)))) (flat2 T) = true -> single_source R T.
+Proof.
+  intros WR WT F t a d (l & NE & PU) _ Pd. rewrite forallb_forall in F.
+  apply posed_iff in Pd. destruct Pd as [p L]. apply (flat2_lookup2 _ _ _ _ WT) in L. specialize (F _ L). cbn in F.
+  inversion PU as [|? r g l' ? M PU']; subst; [congruence|].
+  assert (X : mounted R d = true) by (apply mounted_iff; eauto). rewrite X in F. discriminate.
+Qed.
+
+Lemma rigs_valid_check (R : rigsQ) :
+  wf2 R -> forallb (fun x : string * string * pose => nonzero (snd x)) (flat2 R) = true -> rigs_validQ R.
+Proof.
+  intros WR F r d g M. rewrite forallb_forall in F. apply (flat2_lookup2 _ _ _ _ WR) in M. specialize (F _ M).
+  unfold nonzero in F. cbn [fst snd] in F. apply negb_true_iff in F. unfold MPose.valid. intros C.
+  rewrite <- n2_r_eq in C. apply Qeq_bool_iff in C. congruence.
+Qed.
